@@ -846,8 +846,9 @@ func TextSafeForChordText(s string) bool {
 	if s == "" || strings.ContainsAny(s, "{}=,") {
 		return false
 	}
-	r := []rune(s)[0]
-	if isSpace(r) {
+	// blanks at either end of a key or value are trivia in chord text
+	rs := []rune(s)
+	if isSpace(rs[0]) || isSpace(rs[len(rs)-1]) {
 		return false
 	}
 	return true
